@@ -72,6 +72,19 @@ theorem clone_fresh (st st' : St) (t r : Dense) (hnm : t.mask = none) (h : t.clo
     (∀ b k, b < st.heap.size → cell st' b k = cell st b k) := by
   exact clone_fresh' st st' t r hnm h
 
+/-- **A copy of a lazily transposed tensor is the same lazily transposed tensor** (finding F126, repaired): the clone has
+    the source's access pattern, the source's backed-up pattern *and the axes of the pending transposition*; so undoing
+    the transposition on the clone gives the pattern that undoing it on the source gives, `T` recognises its own undo
+    on the clone, and the in-place build's `Transpose()` finds the cycles it has to follow. -/
+theorem clone_keeps_pending_transposition (st st' : St) (t r : Dense) (hnm : t.mask = none)
+    (h : t.clone st = .ok (st', r)) :
+    r.ap = { t.ap with fin := true } ∧ r.old = t.old ∧ r.tw = t.tw ∧ (Dense.ut r).ap = (Dense.ut { t with ap := { t.ap with fin := true } }).ap := by
+  obtain ⟨hr, _⟩ := clone_unfold st st' t r hnm h
+  subst hr
+  refine ⟨rfl, rfl, rfl, ?_⟩
+  unfold Dense.ut
+  cases t.old <;> rfl
+
 /- Original statement (FALSE as written: nothing says that `t`'s buffer exists in `st`):
 
 theorem clone_eq (st st' : St) (t r : Dense) (hnm : t.mask = none) (h : t.clone st = .ok (st', r))
